@@ -279,6 +279,8 @@ def c13_case(draw):
                 "retry": draw(st.sampled_from([False, "launch_id", False, "idempotency_key"])),
                 "launch_id": draw(st.sampled_from([None, "nightly:2026-10-05 eu-west", None, "run/7 #3", "L1"])), "fail2": draw(st.sampled_from([None, 0, None, 1]))}
     c = draw(gen.case(max_nodes=6, rare=True))
+    if draw(st.sampled_from([False] * 4 + [True])):
+        c["nodes"].append({"p": "NoSuchProcessorXYZ"})  # fails at instantiation: pipeline_start and pipeline_end, no SER
     return {"kind": "single", "case": c, "detail": draw(st.sampled_from(["hash", "all"]))}
 
 
